@@ -266,6 +266,7 @@ func c14Run(u *vfUnit) {
 		}
 		perHandle := make([][]vfPkt, nh)
 		const chunk = 48
+		pathCmds := 0
 		// request server, every fourth burst: one write per handle fails in the handler (disk full, quota).
 		// That write is answered with an error; everything else about the burst stays as stated: the
 		// other requests succeed and Close runs after all of them, exactly once.
@@ -333,9 +334,24 @@ func c14Run(u *vfUnit) {
 					perHandle[h] = append(perHandle[h], vfPkt{Type: rfFstat, ID: id, Handle: handles[h]})
 				}
 			}
+			if (h+bi+u.Index/2)%2 == 0 {
+				// a request that names a path, not the handle, between the last read/write and the CLOSE (served by the
+				// servers' sequential command path): the CLOSE behind it still waits for every read and write before it
+				id++
+				switch (h + bi) % 3 {
+				case 0:
+					perHandle[h] = append(perHandle[h], vfPkt{Type: rfRealpath, ID: id, Path: "."})
+				case 1:
+					perHandle[h] = append(perHandle[h], vfPkt{Type: rfLstat, ID: id, Path: paths[h]})
+				default:
+					perHandle[h] = append(perHandle[h], vfPkt{Type: rfStat, ID: id, Path: "/"})
+				}
+				pathCmds++
+			}
 			id++
 			perHandle[h] = append(perHandle[h], vfPkt{Type: rfClose, ID: id, Handle: handles[h]})
 		}
+		u.Count("path_requests_between_rw_and_close", int64(pathCmds))
 		// interleave handles randomly, keeping each handle's own order
 		var burst []vfPkt
 		idx := make([]int, nh)
@@ -460,6 +476,10 @@ func c14Run(u *vfUnit) {
 				}
 			case rfFstat:
 				ok = p.Type == rfAttrs
+			case rfRealpath:
+				ok = p.Type == rfName
+			case rfStat, rfLstat:
+				ok = p.Type == rfAttrs || p.Type == rfStatus // (whatever the backend says about that path)
 			}
 			if !ok {
 				u.Violation("pre-close-request-failed:"+kind.String()+":"+rfTypeName(req.Type), fmt.Sprintf("%s: %s, sent before the CLOSE of its handle, was answered %s", label, req, p), witness)
